@@ -134,8 +134,10 @@ def run(A, R: Report, thorough: bool):
                     out.append(n_)
                 elif isinstance(v_, ast.Call) and src(v_.func) == 'next' and mvar in src(v_):
                     out.append(n_)
-                elif isinstance(v_, ast.Call) and src(v_.func) in ('min', 'max') and v_.args and _is_name(A, f, v_.args[0], mvar) and not v_.keywords:
-                    out.append(n_)      # lexicographic extreme: a property of the names' spelling, not of nesting
+                elif isinstance(v_, ast.Call) and src(v_.func) in ('min', 'max') and v_.args and _is_name(A, f, v_.args[0], mvar):
+                    out.append(n_)      # an extreme by spelling / length: one of several equally ranked matches is taken by position
+                elif isinstance(v_, ast.Subscript) and isinstance(v_.value, ast.Call) and src(v_.value.func) == 'sorted' and v_.value.args and _is_name(A, f, v_.value.args[0], mvar):
+                    out.append(n_)
         return out
 
     rets = [n for n in cfg.nodes.values() if n.kind == 'stmt' and isinstance(n.ast, ast.Return) and n.id in cfg.reachable_nodes() and n.owner is f.node]
